@@ -36,13 +36,20 @@ After that:
 
 Guards: a close() that raised counts as closed (the pool logs it and moves on, by
 contract).  BaseExceptions propagate to the holder by design; what must hold is the state
-after the holder has released.  A *detached* connection is the holder's to close: a holder
+after the holder has released (a holder whose close() raised has released too: the
+reference is dropped and collected, the pool's finalizer does the rest).  A *detached* connection is the holder's to close: a holder
 never drops one without close().  StaticPool / SingletonThreadPool / AssertionPool share or
 restrict connections by design, so their histories have one holder at a time; StaticPool
 documents invalidation as "only partially supported" (a soft invalidation makes it drop the
 record with its open connection), so no soft invalidation is generated for it.  A failing
 *checkin* listener is not among the faults the property lists and is not injected.  Recycle
 *age* is exercised but not judged (the property speaks of invalidation only).
+
+Mechanisms are computed from the witness: <symptom>:<phase of the fault>:<kind class>, for
+a leaked detached connection the fault that hit that very connection.  ``directed_cases``
+replays on every run (shard 0) the witnesses of the defects this check found (five repaired
+upstream in this tree, two recorded as open known findings), so a regression shows whatever
+the seed.
 """
 from __future__ import annotations
 
